@@ -195,11 +195,21 @@ fn streaming(ctx: &mut Ctx, rng: &mut ChaCha20Rng) {
 }
 
 /// Combination proofs (open_combinations): every per-point proof has the size of a single opening, with the
-/// blinding part present exactly when a hiding polynomial takes part in a combination opened at that point.
-fn lc_proofs<S: Scheme>(ctx: &mut Ctx, rng: &mut ChaCha20Rng, per_point: fn(usize, bool) -> usize) {
+/// blinding part present exactly when blinding takes part at that point. `net`: the KZG-style schemes blind a
+/// combination iff the NET coefficient of some hiding polynomial is non-zero (0*h + p and h + p - h are unblinded);
+/// the inner-product argument blinds it iff a hiding polynomial is referenced (no zero coefficients generated there).
+fn lc_proofs<S: Scheme>(ctx: &mut Ctx, rng: &mut ChaCha20Rng, per_point: fn(&Cfg, bool) -> usize, net: bool) {
+    use ark_ff::Zero;
     use ark_poly_commit::{LCTerm, LinearCombination, PolynomialCommitment};
-    let d = [3usize, 7, 16, 33, 64][below(rng, 5)];
-    let cfg = Cfg { max_degree: d, num_vars: None, supported_degree: d, supported_hiding: 1, enforced: None };
+    let cfg = if S::KIND == Kind::Multivariate {
+        let nv = range(rng, 1, 4);
+        let d = range(rng, 1, 3);
+        Cfg { max_degree: d, num_vars: Some(nv), supported_degree: d, supported_hiding: d, enforced: None }
+    } else {
+        let d = [3usize, 7, 16, 33, 64][below(rng, 5)];
+        Cfg { max_degree: d, num_vars: None, supported_degree: d, supported_hiding: 1, enforced: None }
+    };
+    let d = cfg.supported_degree;
     let w = match make_world::<S>(&cfg, rng) {
         Ok(w) => w,
         Err(_) => return ctx.skipped("combination-proof-size", "setup refused"),
@@ -220,26 +230,54 @@ fn lc_proofs<S: Scheme>(ctx: &mut Ctx, rng: &mut ChaCha20Rng, per_point: fn(usiz
     };
     let nlc = range(rng, 2, 4);
     let mut lcs: Vec<LinearCombination<FOf<S>>> = Vec::new();
-    let mut lc_hiding: Vec<bool> = Vec::new();
+    let mut lc_blinded: Vec<bool> = Vec::new();
+    let mut shapes: Vec<String> = Vec::new();
     for j in 0..nlc {
         let mut lc = LinearCombination::empty(format!("{}{}", ["lc", "eq", "a_"][below(rng, 3)], j));
-        let mut h = false;
-        // the first two combinations: one all non-hiding, one with a hiding polynomial, in random order
+        let mut netc: Vec<FOf<S>> = vec![FOf::<S>::zero(); npolys];
+        let mut referenced = vec![false; npolys];
+        let mut push = |lc: &mut LinearCombination<FOf<S>>, c: FOf<S>, i: usize| {
+            netc[i] += c;
+            referenced[i] = true;
+            lc.push((c, LCTerm::PolyLabel(format!("p{}", i))));
+        };
+        // the first two combinations: one without blinding, one with a hiding polynomial, in random order
         let force: Option<bool> = if j < 2 { Some((j == 0) == (a < b)) } else { None };
-        for _ in 0..range(rng, 1, 3) {
-            let i = match force {
-                Some(true) => a,
-                Some(false) => b,
-                None => below(rng, npolys),
-            };
-            h |= hid[i];
-            lc.push((FOf::<S>::from(range(rng, 1, 9) as u64), LCTerm::PolyLabel(format!("p{}", i))));
+        let small = |rng: &mut ChaCha20Rng| FOf::<S>::from(range(rng, 1, 9) as u64);
+        let mut shape = "plain";
+        match force {
+            Some(false) if net && rng.next_u32() % 2 == 0 => {
+                // unblinded although a hiding polynomial is named: zero coefficient, or cancelling terms
+                if rng.next_u32() % 2 == 0 {
+                    shape = "0*h + p";
+                    push(&mut lc, FOf::<S>::zero(), a);
+                    push(&mut lc, small(rng), b);
+                } else {
+                    shape = "h + p - h";
+                    let k = small(rng);
+                    push(&mut lc, k, a);
+                    push(&mut lc, small(rng), b);
+                    push(&mut lc, -k, a);
+                }
+            }
+            _ => {
+                for _ in 0..range(rng, 1, 3) {
+                    let i = match force {
+                        Some(true) => a,
+                        Some(false) => b,
+                        None => below(rng, npolys),
+                    };
+                    push(&mut lc, small(rng), i);
+                }
+            }
         }
         if rng.next_u32() % 3 == 0 {
             lc.push((FOf::<S>::from(5u64), LCTerm::One));
         }
+        let blinded = if net { (0..npolys).any(|i| hid[i] && !netc[i].is_zero()) } else { (0..npolys).any(|i| hid[i] && referenced[i]) };
         lcs.push(lc);
-        lc_hiding.push(h);
+        lc_blinded.push(blinded);
+        shapes.push(shape.to_string());
     }
     // each combination at its own point label; sometimes one more label opening several of them
     let mut qs: QuerySet<PtOf<S>> = QuerySet::new();
@@ -247,7 +285,7 @@ fn lc_proofs<S: Scheme>(ctx: &mut Ctx, rng: &mut ChaCha20Rng, per_point: fn(usiz
     for (j, lc) in lcs.iter().enumerate() {
         let pl = format!("z{}", j);
         qs.insert((lc.label().clone(), (pl.clone(), S::gen_point(&cfg, rng))));
-        groups.insert(pl, lc_hiding[j]);
+        groups.insert(pl, lc_blinded[j]);
     }
     if rng.next_u32() % 2 == 0 {
         let z = S::gen_point(&cfg, rng);
@@ -255,7 +293,7 @@ fn lc_proofs<S: Scheme>(ctx: &mut Ctx, rng: &mut ChaCha20Rng, per_point: fn(usiz
         for (j, lc) in lcs.iter().enumerate() {
             if j == 0 || rng.next_u32() % 2 == 0 {
                 qs.insert((lc.label().clone(), ("w".to_string(), z.clone())));
-                h |= lc_hiding[j];
+                h |= lc_blinded[j];
             }
         }
         groups.insert("w".to_string(), h);
@@ -263,24 +301,31 @@ fn lc_proofs<S: Scheme>(ctx: &mut Ctx, rng: &mut ChaCha20Rng, per_point: fn(usiz
     let tx = Tx::<S> { w, specs: vec![], polys, c, pre: vec![], commit_seed: 0 };
     let mut r = crate::probe::mon_rng(rng.next_u64());
     let res = crate::rt::attempt(|| PcOf::<S>::open_combinations(&tx.w.ck, lcs.iter(), tx.polys.iter(), tx.c.comms.iter(), &qs, &mut tx.sponge(), tx.c.states.iter(), Some(&mut r)));
-    let desc = json!({"degree": d, "hiding": hid, "combinations": lcs.iter().zip(&lc_hiding).map(|(l, h)| json!({"label": l.label(), "terms": l.len(), "has_hiding_polynomial": h})).collect::<Vec<_>>(),
+    let desc = json!({"cfg": cfg.json(), "hiding": hid, "combinations": lcs.iter().zip(&lc_blinded).zip(&shapes).map(|((l, h), s)| json!({"label": l.label(), "terms": l.len(), "blinded": h, "shape": s})).collect::<Vec<_>>(),
         "point_labels": groups});
     let lp = match res {
         Ok(p) => p,
         Err(_) => return ctx.skipped("combination-proof-size", "open_combinations refused (reported under C06)"),
     };
+    for s in &shapes {
+        ctx.count(&format!("combination-shape:{}", s), 1);
+    }
     let proofs: Vec<ProofOf<S>> = lp.proof.clone().into();
     let sizes: Vec<usize> = proofs.iter().map(|p| { let one: BatchProofOf<S> = vec![p.clone()].into(); sz(&one) - 8 }).collect();
-    let want: Vec<usize> = groups.values().map(|h| per_point(d, *h)).collect();
+    let want: Vec<usize> = groups.values().map(|h| per_point(&cfg, *h)).collect();
     ctx.check(sizes == want, "combination-proof-size", "serialize", desc, || json!({"expected_per_point_label": want, "observed": sizes, "evals": lp.evals.as_ref().map(|e| e.len())}));
 }
 
-fn kzg_point_proof(_d: usize, hiding: bool) -> usize {
+fn kzg_point_proof(_c: &Cfg, hiding: bool) -> usize {
     G1 + 1 + if hiding { FR } else { 0 }
 }
 
-fn ipa_point_proof(d: usize, hiding: bool) -> usize {
-    let rounds = ((d + 1).next_power_of_two()).trailing_zeros() as usize;
+fn pst13_point_proof(c: &Cfg, hiding: bool) -> usize {
+    8 + c.num_vars.unwrap() * G1 + 1 + if hiding { FR } else { 0 }
+}
+
+fn ipa_point_proof(c: &Cfg, hiding: bool) -> usize {
+    let rounds = ((c.supported_degree + 1).next_power_of_two()).trailing_zeros() as usize;
     2 * (8 + rounds * JJ) + JJ + FR + 2 * (1 + if hiding { 32 } else { 0 })
 }
 
@@ -401,9 +446,10 @@ pub fn run(ctx: &mut Ctx) {
     ctx.run_cases("pst13", n / 4, |ctx, _i, rng| pst13(ctx, rng));
     ctx.run_cases("mlpst", n / 4, |ctx, _i, rng| mlpst(ctx, rng));
     ctx.run_cases("ipa", n, |ctx, _i, rng| ipa(ctx, rng));
-    ctx.run_cases("marlin/combinations", n, |ctx, _i, rng| lc_proofs::<MarlinS<E381>>(ctx, rng, kzg_point_proof));
-    ctx.run_cases("sonic/combinations", n, |ctx, _i, rng| lc_proofs::<SonicS<E381>>(ctx, rng, kzg_point_proof));
-    ctx.run_cases("ipa/combinations", n, |ctx, _i, rng| lc_proofs::<IpaS>(ctx, rng, ipa_point_proof));
+    ctx.run_cases("marlin/combinations", n, |ctx, _i, rng| lc_proofs::<MarlinS<E381>>(ctx, rng, kzg_point_proof, true));
+    ctx.run_cases("sonic/combinations", n, |ctx, _i, rng| lc_proofs::<SonicS<E381>>(ctx, rng, kzg_point_proof, true));
+    ctx.run_cases("pst13/combinations", n / 2, |ctx, _i, rng| lc_proofs::<Pst13S<E381>>(ctx, rng, pst13_point_proof, true));
+    ctx.run_cases("ipa/combinations", n, |ctx, _i, rng| lc_proofs::<IpaS>(ctx, rng, ipa_point_proof, false));
     ctx.run_cases("hyrax", n / 2, |ctx, _i, rng| hyrax(ctx, rng));
     ctx.run_cases("streaming", n / 4, |ctx, _i, rng| streaming(ctx, rng));
     ctx.run_cases("ligero-uni", n / 4, |ctx, _i, rng| linear::<UniLigeroS>(ctx, rng, (4, 1), true, None));
